@@ -281,7 +281,7 @@ impl CaseDriver for Convert {
         let names: Vec<String> = family().iter().enumerate().map(|(i, s)| format!("{i}: {}", s.name)).collect();
         Describe {
             rule: format!(
-                "{} stacks ({}) x cell metals 1..=stack height x outline {} periods (a period box = lcm of the layer pitches per direction) — all free; then up to {} cuts, {} assignments and {} instance(s) chosen from the complete menus (cuts: every in-range crossing whose track layer is inside the cell's metals and whose crossing layer is adjacent in the stack; assignments: the same with both layers inside the cell's metals, second net equal or different; instances: a 1-metal or 2-metal child of one period box at every grid position that keeps it inside the outline — any primitive-pitch position along layer-0 tracks, whole periods across — in all 4 reflections), cut listing order normal / reversed, with at most {} departures from the empty cell in total (deviation bound). State = (stack, cell); non-trivial = at least one cut, assignment or instance.",
+                "{} stacks ({}) x cell metals 1..=stack height x outline {} periods (a period box = lcm of the layer pitches per direction) — all free; then up to {} cuts, {} assignments and {} instance(s) chosen from the complete menus (cuts: every in-range crossing whose track layer is inside the cell's metals and whose crossing layer is adjacent in the stack; assignments: the same with both layers inside the cell's metals, second net equal or different; instances: a 1-metal or 2-metal child of one period box, or a 0-metal child of one primitive pitch (which must block nothing), at every grid position that keeps it inside the outline — any primitive-pitch position along layer-0 tracks, whole periods across — in all 4 reflections), cut listing order normal / reversed, with at most {} departures from the empty cell in total (deviation bound). State = (stack, cell); non-trivial = at least one cut, assignment or instance.",
                 family().len(),
                 names.join("; "),
                 t.pick("{1,2} x {1,2}", "{1,2} x {1,2}, 3 x 1, 1 x 3"),
@@ -320,7 +320,8 @@ impl CaseDriver for Convert {
         let cell_db = (nx * pb.0, ny * pb.1);
         let size = (cell_db.0 / sd.prim.0, cell_db.1 / sd.prim.1);
         let unit = (pb.0 / sd.prim.0, pb.1 / sd.prim.1);
-        let children = vec![ChildD { metals: 1, size: unit }, ChildD { metals: 2, size: unit }];
+        // the third child owns no metal at all: it blocks nothing
+        let children = vec![ChildD { metals: 1, size: unit }, ChildD { metals: 2, size: unit }, ChildD { metals: 0, size: (1, 1) }];
         // cuts
         let cm = crossing_menu(sd, cell_db, metals, sd.layers.len());
         let mut cuts = vec![];
